@@ -176,6 +176,21 @@ func c14Programs(tier string) []*Spec {
 			out = append(out, sp)
 		}
 	}
+	// one decorator that is both a shutdown listener and a moving-average decorator (bare and wrapped), next to a plain
+	// listener and a plain moving-average decorator: membership in one group must not cost it the other
+	for _, rf := range []string{"auto", "manual"} {
+		for _, how := range []string{"cancel", "shutdown"} {
+			sp := &Spec{Name: "c14-" + how + "-listener-and-ewma", Refresh: rf, Q: -1, Notifier: true}
+			sp.Bars = []BarSpec{
+				{Total: 3, Pre: []DecorSpec{{Listen: true, Ewma: true, Widths: []int{2}}}, App: []DecorSpec{{Ewma: true, Widths: []int{2}}, listenD(1, false)}},
+				{Total: 3, App: []DecorSpec{{Listen: true, Ewma: true, Depth: 2, Widths: []int{3}}}},
+			}
+			sp.Main = []Op{{K: "add", B: 0}, {K: "add", B: 1}}
+			sp.Clients = [][]Op{{{K: "ewma", B: 0, N: 1}, {K: "ewma", B: 1, N: 1}}, {{K: how}}, {{K: "barwait", B: 0}}}
+			sp.Late = []Op{{K: "get", B: 0}, {K: "get", B: 1}}
+			out = append(out, sp)
+		}
+	}
 	// cancellation and Shutdown landing while a render delay is still pending
 	for _, rf := range []string{"auto", "manual"} {
 		for _, how := range []string{"cancel", "shutdown"} {
